@@ -5,7 +5,7 @@ import os
 import z3
 
 from pyvc.core import And, Eq, Implies, Ite, Not, Or, SymBool, SymInt
-from pyvc.unit import unit
+from pyvc.unit import bare, unit
 from specs import javaexpr as J
 from specs import dalvikgen as G
 from specs import dexwriter as DW
@@ -57,7 +57,7 @@ class _Ins:
 
 
 def _print_rhs(wr, exp, vmap):
-    w = object.__new__(wr.Writer)
+    w = bare(wr.Writer)
     buf = []
     w.write = lambda s, data=None: buf.append(s)
     w.write_ext = lambda t: None
